@@ -72,6 +72,8 @@ def py2e(node, env):
         if isinstance(v, float):
             return from_float(v)
         raise Untranslatable("constant " + repr(v))
+    if isinstance(node, ast.Attribute) and node.attr in ("real", "imag"):
+        return f"(.{'re' if node.attr == 'real' else 'im'} {py2e(node.value, env)})"
     if isinstance(node, ast.Attribute) and isinstance(node.value, ast.Name) and node.attr in ("expr", "impedances"):
         # `x1.expr` / `x1.impedances` of a Subcircuit record: the sub-circuit's impedance
         name = RENAME.get(node.value.id, node.value.id)
@@ -87,10 +89,33 @@ def py2e(node, env):
     if isinstance(node, ast.Call):
         if isinstance(node.func, ast.Attribute) and node.func.attr == "astype":
             return py2e(node.func.value, env)  # dtype cast: identity on values
+        if isinstance(node.func, ast.Name) and node.func.id == "abs" and len(node.args) == 1 and not node.keywords:
+            return f"(.abs {py2e(node.args[0], env)})"
+        if isinstance(node.func, ast.Name) and node.func.id in ("float", "array_sum") and len(node.args) == 1 and not node.keywords:
+            # `float(array_sum(term))`: the translated term is the summand; the sum over the points is modelled by the list sum in Lean
+            return py2e(node.args[0], env)
         if isinstance(node.func, ast.Name) and node.func.id in FUN1 and len(node.args) == 1 and not node.keywords:
             return f"(.{FUN1[node.func.id]} {py2e(node.args[0], env)})"
         raise Untranslatable("call " + ast.unparse(node.func))
     raise Untranslatable("node " + type(node).__name__)
+
+
+INLINE = {}   # helper name -> (parameter names, python AST of its return expression)
+
+
+def subst(node, binding):
+    """translate `node` (an AST) with parameter names bound to already translated terms"""
+    return py2e(node, dict(binding))
+
+
+def return_expr(fn_obj):
+    src = textwrap.dedent(inspect.getsource(fn_obj))
+    fn = ast.parse(src).body[0]
+    params = [a.arg for a in fn.args.args]
+    for st in fn.body:
+        if isinstance(st, ast.Return):
+            return params, st.value
+    raise Untranslatable("no return in " + fn.name)
 
 
 def translate_function(fn_obj):
@@ -106,6 +131,19 @@ def translate_function(fn_obj):
             return py2e(st.value, env)
         elif isinstance(st, ast.Expr) and isinstance(st.value, ast.Constant):
             continue  # docstring
+        elif isinstance(st, ast.If) and all(isinstance(b, ast.Raise) for b in st.body) and not st.orelse:
+            continue  # argument validation: `if not ...: raise TypeError(...)`
+        elif (isinstance(st, ast.If) and isinstance(st.test, ast.Compare) and isinstance(st.test.left, ast.Name)
+              and len(st.test.ops) == 1 and isinstance(st.test.ops[0], ast.Is) and isinstance(st.test.comparators[0], ast.Constant)
+              and st.test.comparators[0].value is None and len(st.body) == 1 and isinstance(st.body[0], ast.Assign) and not st.orelse
+              and isinstance(st.body[0].value, ast.Call) and isinstance(st.body[0].value.func, ast.Name) and st.body[0].value.func.id in INLINE):
+            # `if weight is None: weight = _boukamp_weight(Z_exp)`: the default branch, inlined
+            tgt = st.body[0].targets[0].id
+            call = st.body[0].value
+            sub = INLINE[call.func.id]
+            params, body = sub
+            binding = {p: py2e(a, env) for p, a in zip(params, call.args)}
+            env[tgt] = subst(body, binding)
         else:
             raise Untranslatable("statement " + type(st).__name__)
     raise Untranslatable("no return statement")
@@ -190,6 +228,19 @@ def translate_tlm(out, names_out, untranslatable):
         RENAME = {}
 
 
+def translate_analysis(out, names_out, untranslatable):
+    """`_calculate_residuals`, `_boukamp_weight`, `_calculate_pseudo_chisqr` of analysis/utility.py (per point)."""
+    import pyimpspec.analysis.utility as U
+    try:
+        INLINE["_boukamp_weight"] = return_expr(U._boukamp_weight)
+        out.append(f"/-- `_calculate_residuals(Z_exp, Z_fit)`, one point -/\ndef residual : E := {translate_function(U._calculate_residuals)}")
+        out.append(f"/-- `_boukamp_weight(Z_exp)`, one point -/\ndef boukampWeight : E := {translate_function(U._boukamp_weight)}")
+        out.append(f"/-- the summand of `_calculate_pseudo_chisqr(Z_exp, Z_fit)` with the default (Boukamp) weight, one point -/\ndef chisqrTerm : E := {translate_function(U._calculate_pseudo_chisqr)}")
+        names_out.extend(["residual", "boukampWeight", "chisqrTerm"])
+    except Untranslatable as ex:
+        untranslatable.append({"what": "analysis/utility.py kernels", "detail": str(ex)})
+
+
 def generate(gen_dir, untranslatable):
     from sympy import sympify
     from pyimpspec.circuit.registry import get_elements
@@ -213,6 +264,9 @@ def generate(gen_dir, untranslatable):
         names.append(sym)
     tlm_names = []
     translate_tlm(out, tlm_names, untranslatable)
+    ana = []
+    translate_analysis(out, ana, untranslatable)
+    out.append("def analysisKernels : List String := [" + ", ".join(f'"{n}"' for n in ana) + "]")
     out.append("")
     out.append("def tlmBranches : List String := [" + ", ".join(f'"{n}"' for n in tlm_names) + "]")
     out.append("/-- the non-container element classes currently registered -/")
